@@ -120,7 +120,11 @@ func (m *Model) PullChildren(ctx context.Context, opts ...resource.ReadOption) <
 	go func() {
 		defer close(out)
 		for change := range changes {
-			out <- childrenChangeToProto(change)
+			select {
+			case <-ctx.Done():
+				return // the subscriber is gone, nobody will take the change
+			case out <- childrenChangeToProto(change):
+			}
 		}
 	}()
 
